@@ -147,10 +147,11 @@ def instance(rng, d: dict, rep_min: int = 1) -> dict:
         el["t"] = canonical_value(rng, d["kind"], d["style"])
     elif d["shape"] == "mixed":
         words = ["some ", "text, ", "more", " and ", "end."]
-        el["t"] = rng.choice(words)
+        bare = rng.random() < 0.3  # an occurrence of the mixed element that happens to hold elements only
+        el["t"] = None if bare else rng.choice(words)
         for _ in range(rng.randint(1, 3)):
             k = instance(rng, rng.choice(d["inline"]), rep_min)
-            k["l"] = rng.choice(words)
+            k["l"] = None if bare else rng.choice(words)
             el["c"].append(k)
     else:
         for p in d["parts"]:
